@@ -111,6 +111,22 @@ fn with<R>(f: impl FnOnce(&mut Kernel) -> R) -> R {
     f(g.as_mut().expect("no run in progress"))
 }
 
+/// When WFSIM_TAPE_LOG names a file, every tape value is appended to it with an unbuffered write as it is
+/// chosen: the tape of a run that kills its process can then be recovered (and minimised) by the driver.
+fn tape_log(v: u32) {
+    use std::io::Write;
+    use std::sync::OnceLock;
+    static LOG: OnceLock<Option<Mutex<std::fs::File>>> = OnceLock::new();
+    let log = LOG.get_or_init(|| {
+        std::env::var_os("WFSIM_TAPE_LOG").and_then(|p| std::fs::OpenOptions::new().create(true).append(true).open(p).ok()).map(Mutex::new)
+    });
+    if let Some(f) = log {
+        if let Ok(mut f) = f.lock() {
+            let _ = f.write_all(format!("{v}\n").as_bytes());
+        }
+    }
+}
+
 pub struct RunRecord {
     pub tape: Vec<(&'static str, u32, u32)>,
     pub tape_hash: u64,
@@ -213,6 +229,7 @@ impl Kernel {
         };
         self.pos += 1;
         self.record.push((label, n, v));
+        tape_log(v);
         v
     }
 
@@ -352,6 +369,7 @@ pub fn observe(value: usize, n: usize, label: &'static str) -> usize {
         };
         k.pos += 1;
         k.record.push((label, n as u32, v as u32));
+        tape_log(v as u32);
         v
     })
 }
